@@ -34,6 +34,8 @@ GLOBAL_REWRITES = [
     ('R5c', re.compile(r'(?m)^([ \t]*)const (?=[A-Z_0-9]+\s*:)'), lambda m: m.group(1) + 'pub const ', 'const -> pub const'),
     ('R1', re.compile(r'\.to_le_bytes\(\)\[0\]'), '.le0()', 'x.to_le_bytes()[0] -> x.le0() (assumed: x mod 256)'),
     ('R2', re.compile(r'\|_\|'), '|_e|', 'closure parameter _ -> _e'),
+    ('R12', re.compile(r'\b(i32|i64|usize)::from\('), lambda m: '<%s as VpFrom<_>>::vp_from(' % m.group(1),
+     'T::from(x) -> <T as VpFrom<_>>::vp_from(x) (assumed: lossless widening conversion, prelude VpFrom)'),
 ]
 
 
@@ -77,7 +79,11 @@ class Builder:
     def directive(self, d, tpath, tline):
         parts = d.split(None, 1)
         cmd, arg = parts[0], (parts[1] if len(parts) > 1 else '')
-        if cmd == 'instance':
+        if cmd == 'include':
+            ip = os.path.join(self.vdir, 'contracts', arg.strip())
+            for k, ln in enumerate(open(ip).read().split('\n')):
+                self.emit(ln, {'kind': 'template', 'file': arg.strip(), 'line': k + 1})
+        elif cmd == 'instance':
             self.instance = arg.strip()
         elif cmd == 'fn':
             # fn <file> <name> [prefix]
@@ -239,7 +245,7 @@ class Builder:
             edits.append(Edit(sp.start + mt.start(), sp.start + mt.end(), new, 'explicit-re', **ck))
             self.rewrites.append(dict(rule='explicit', file=s.name, line=s.line(sp.start + mt.start()), fn=key,
                                       old=mt.group(0), new=new))
-        dead = [(e.start, e.end) for e in edits if e.end > e.start and e.rule.startswith(('R4', 'explicit'))]
+        dead = [(e.start, e.end) for e in edits if e.end > e.start and e.rule.startswith(('R4', 'explicit')) and not e.new.strip()]
 
         def alive(pos):
             return not any(x <= pos < y for x, y in dead)
